@@ -165,4 +165,7 @@ theorem sliceBounds_le (n : Nat) (a b : Int) : (Heap.sliceBounds n a b).1 ≤ (H
   simp only
   split <;> split <;> split <;> (try split) <;> (try split) <;> omega
 
+theorem sliceBounds_le' (n : Nat) (a b : Int) : (Heap.sliceBounds n a b).1 ≤ (Heap.sliceBounds n a b).2 ∧ (Heap.sliceBounds n a b).2 ≤ n :=
+  sliceBounds_le n a b
+
 end Solverz
